@@ -10,7 +10,7 @@ Batch == 4096
 
 RECURSIVE Log2Ceil(_)
 Log2Ceil(x) == IF x <= 1 THEN 0 ELSE 1 + Log2Ceil((x + 1) \div 2)
-CallLimit(N) == N + 2 * Log2Ceil(N + 1) + 4
+CallLimit(N) == N + 8 * Log2Ceil(N + 1) + 16
 
 VARIABLE l
 
